@@ -49,6 +49,25 @@ func TestTableBlockPostfix(t *testing.T) {
 			}
 		}
 	}
+	// A block-like operand is a single node: in parentheses or not, it is the LEFT operand of what follows it - also
+	// when it stands first in a statement or in the result position of a block.
+	for _, ctx := range []string{"stmt", "tail", "let", "ret", "arg"} {
+		for _, bl := range blockLikes {
+			for _, fo := range []string{" - 2", " + 1 * 3", " * 3 - 1", " == 1", " < 2 && p", " as int", " ** 2", " | 1", ".m", "[0]", "(1)", " - 2 - 3"} {
+				k++
+				if !pk.Mine(k) {
+					continue
+				}
+				c := layoutCase{A: wrapCtx(ctx, bl+fo), B: wrapCtx(ctx, "("+bl+")"+fo), Kind: "parens:block-like-left-operand"}
+				pk.Eval()
+				pk.Class("blockleft:" + ctx)
+				if pa := parseRepo(c.A); pa.clean() {
+					pk.NonTrivial(c.A, map[string]string{"context": ctx, "operand": bl, "follower": fo})
+				}
+				col.Report(c, checkLayout(c))
+			}
+		}
+	}
 	pk.Exhaustive("block-postfix")
 	col.Done(t)
 }
